@@ -32,11 +32,11 @@ func (f *Flow) absorb(g *Flow) {
 }
 
 type Exec struct {
-	fx       *FuncCtx
-	info     *types.Info
-	nret     int
-	sig      *types.Signature // overrides the enclosing function's signature (function literals)
-	deferred []*ast.CallExpr
+	fx         *FuncCtx
+	info       *types.Info
+	nret       int
+	sig        *types.Signature // overrides the enclosing function's signature (function literals)
+	deferredMu []deferredUnlock
 }
 
 func (x *Exec) ev(st *State) *Ev {
@@ -822,6 +822,13 @@ func (x *Exec) rangeStmt(s *ast.RangeStmt, st *State) *Flow {
 	case VIfaces:
 		n = c.N
 		elem = func(h *State, k Term) Val { return fx.ifaceAt(c, k, false) }
+	case VRefs:
+		n = c.N
+		elem = func(h *State, k Term) Val {
+			r := fx.name(sortInt, "re", sSel(c.Arr, k))
+			fx.assume(h.pc, sAnd(sLe("0", r), sLe(r, fx.allocTerm(h))))
+			return VRef{r, c.Elem}
+		}
 	case VStr:
 		if t := x.info.TypeOf(s.X); t != nil && isByteSlice(t) {
 			n = c.L
